@@ -246,7 +246,10 @@ RethrowsFirst == Returned => /\ (result = -1) <=> (thrown = {})
                              /\ (result # -1 => result \in thrown /\ result = exc)
 NoLeak == Returned => leaked = {}
 \* the pool is usable afterwards: nothing of this pipeline is left in it, no worker is still inside it
-PoolClean == Returned => poolq = {} /\ otc = 0 /\ \A t \in Workers : stk[t] = <<>>
+\* (with the fixed generator a worker may still be inside the last CompletionSignal's notify(): it touches
+\*  only the shared completion event, nothing of the pipeline or the task set)
+SignalTail(t) == Len(stk[t]) = 1 /\ Top(t).k \in {"gen", "gsig"} /\ ~Top(t).w /\ Top(t).pc = "FutexWake"
+PoolClean == Returned => poolq = {} /\ otc = 0 /\ \A t \in Workers : stk[t] = <<>> \/ SignalTail(t)
 \* items still in a local queue at return are destroyed by the (fixed) destructor; their count is reported
 LeftInQueues == UNION {gate[g].q : g \in Gates}
 
